@@ -66,7 +66,7 @@ def sig_of(res, beh=None):
 
 def model_flow(prop, tier, replay, *, spec, mods, trace, mc, gens, mutators, extra_behs=None, assumptions=(),
                need_actions=(), level="model_checking", samples_from=None, tv_quick=6000, drive_timeout=60,
-               post=None, sig_fn=None):
+               post=None, sig_fn=None, compare=True, rep=None, finish=True, part=None):
     """the common flow of a model-based check:
        mc    : list of (module, cfg) design checks
        gens  : list of (label, module, cfg, mode, opts) ; opts: num, depth, sample (quick-tier sample size),
@@ -74,13 +74,22 @@ def model_flow(prop, tier, replay, *, spec, mods, trace, mc, gens, mutators, ext
        trace : (module, cfg) of the trace specification
        extra_behs: function() -> {label: [behaviours]} generated outside TLC (judged by the trace spec)
        post  : function(rep, work, lib, behs, results) for property-specific extras"""
-    rep = vlib.Report(prop, tier, level)
-    work = vlib.Work(prop)
+    rep = rep or vlib.Report(prop, tier, level)
+    work = getattr(rep, "work", None) or vlib.Work(prop)
+    rep.work = work
     quick = tier != "thorough"
-    lib, tbuild = vlib.build_lib(work)
+    if getattr(rep, "lib", None):
+        lib, tbuild = rep.lib, 0.0
+    else:
+        lib, tbuild = vlib.build_lib(work)
+        rep.lib = lib
+    if replay and part and json.load(open(replay))["replay"].get("spec") not in (None, spec.replace(".tla", "")):
+        return 0
     if replay:
         d = json.load(open(replay))
         beh = d["replay"]
+        if not compare:
+            beh = {"id": beh.get("id", 0), "spec": beh["spec"], "steps": [{"op": s["op"], "args": s.get("args", {})} for s in beh["steps"]]}
         r = vlib.drive(work, lib, [beh], mods=mods, jobs=1)[0]
         rej = []
         if r["status"] == "ok":
@@ -130,7 +139,10 @@ def model_flow(prop, tier, replay, *, spec, mods, trace, mc, gens, mutators, ext
     number(behs)
     byid = {b["id"]: b for b in behs}
     t = time.time()
-    res = vlib.drive(work, lib, behs, mods=mods, timeout=drive_timeout)
+    dbehs = behs
+    if not compare:    # values are the implementation's choice: the trace specification is the only judge
+        dbehs = [{"id": b["id"], "spec": b["spec"], "steps": [{"op": s["op"], "args": s.get("args", {})} for s in b["steps"]]} for b in behs]
+    res = vlib.drive(work, lib, dbehs, mods=mods, timeout=drive_timeout)
     tdrive = time.time() - t
     bad = [r for r in res if r["status"] != "ok"]
     okres = [r for r in res if r["status"] == "ok"]
@@ -148,7 +160,7 @@ def model_flow(prop, tier, replay, *, spec, mods, trace, mc, gens, mutators, ext
         if key in seen:
             continue
         seen.add(key)
-        r2 = confirm(work, lib, beh, mods)
+        r2 = confirm(work, lib, beh if compare else {"id": beh["id"], "spec": beh["spec"], "steps": [{"op": s["op"], "args": s.get("args", {})} for s in beh["steps"]]}, mods)
         again = r2["status"] != "ok"
         if not again and "rejected_at" in r:
             a, rj = vlib.tlc_validate(work, trace[0], trace[1], [r2], shards=1, tag="cf")
@@ -157,7 +169,7 @@ def model_flow(prop, tier, replay, *, spec, mods, trace, mc, gens, mutators, ext
             rep.violation(sig, beh)
     nt = set(vlib.beh_key(b) for b in behs if nontrivial(b, mutators))
     mid = behs[len(behs) // 2]["steps"] if behs else []
-    rep.cov.update({
+    cov = {
         "states": states, "transitions": trans, "traces_validated_against_impl": acc,
         "evaluations": len(behs), "distinct_nontrivial": len(nt),
         "behaviours_replayed": len(res), "replay_ok": len(okres),
@@ -171,8 +183,18 @@ def model_flow(prop, tier, replay, *, spec, mods, trace, mc, gens, mutators, ext
         "trusted_base": ["TLC", "harness/drive.py + %s (ctypes call table)" % mods, "ASan/UBSan runtime"],
         "mc_coverage": mccov,
         "timing_s": {"build": round(tbuild, 1), "drive": round(tdrive, 1), "validate": round(tval, 1)},
-    })
+    }
+    if part:
+        rep.cov.setdefault("parts", {})[part] = cov
+        for k in ("states", "transitions", "traces_validated_against_impl", "evaluations", "distinct_nontrivial"):
+            rep.cov[k] = rep.cov.get(k, 0) + cov[k]
+        rep.cov.setdefault("samples", [])
+        rep.cov["samples"] += cov["samples"][:2]
+        rep.cov["rule"] = cov["rule"]
+        rep.cov["exhaustive"] = True
+    else:
+        rep.cov.update(cov)
     rep.assumptions += list(assumptions)
     if post:
         post(rep, work, lib, behs, res)
-    return rep.finish()
+    return rep.finish() if finish else 0
